@@ -128,13 +128,23 @@ def opC04Call (j : Json) : Except String Json := do
   match restCall (refTranscode (rtNames m)) m numeric req with
   | .error e => pure (Json.mkObj [("raised", Json.str (match e with
       | .notImplemented => "NotImplementedError" | .noBinding => "ValueError" | .keyErrorBody => "KeyError"))])
-  | .ok w => pure (Json.mkObj [("verb", jstr w.verb), ("uri", jstr w.uri),
+  | .ok w =>
+    let idx := selectedIndex (rtNames m) (httpOptions m) (rtMsg req)
+    let agree := match idx.bind (fun i => (httpOptions m)[i]?) with
+      | some b => Json.bool (decide (Agree m b))
+      | none => Json.null
+    pure (Json.mkObj [("verb", jstr w.verb), ("uri", jstr w.uri),
+      ("binding", optJson jnat idx), ("agree", agree),
       ("body", optJson (fun b => jarr (b.map jleafJson)) w.body),
       ("query", jarr (w.query.map jleafJson)),
       ("flat", jarr ((flattenQuery w.query).map fun (k, v) => jarr [jstr k, jstr v]))])
 
+def opC04Reply (j : Json) : Except String Json := do
+  let st ← (← j.getObjVal? "status").getNat?
+  pure (Json.mkObj [("raises", Json.bool (replyOutcome st != .parsed))])
+
 def opsC04 : List (String × (Json → Except String Json)) :=
   [("c04.uri", opC04Uri), ("c04.names", opC04Names), ("c04.schema", opC04Schema),
-   ("c04.transcode", opC04Transcode), ("c04.call", opC04Call)]
+   ("c04.transcode", opC04Transcode), ("c04.call", opC04Call), ("c04.reply", opC04Reply)]
 
 end GapicModel.Driver
